@@ -31,7 +31,7 @@ try:
 finally:
     subprocess.run(["git", "-C", "/repo", "checkout", "--", "."])
     # tables regenerated from the seeded code must not stay behind
-    subprocess.run(["git", "-C", "/verif", "checkout", "--", "lean/SradModel/Generated"])
+    subprocess.run(["git", "-C", "/verif", "checkout", "--", "lean/SradModel/Generated", "evidence"])
 meta.setdefault("detection", {}).update(results)
 meta["detected"] = any(v["exit"] == 1 for v in meta["detection"].values())
 json.dump(meta, open(os.path.join(d, "meta.json"), "w"), indent=1)
